@@ -12,6 +12,208 @@ EXPLANATION = (
 )
 
 
+class Undecided(Exception):
+    pass
+
+
+def variant_list(body, variants):
+    """the `matches!(self, A | B | ..)` list of a flag method, when that is what the method is"""
+    st = tables.matches_set(body)
+    if st is None:
+        return None
+    if not any(x[0] == "var" and x[1] in variants for x in st[0]):
+        return None
+    return st
+
+
+def truth(v):
+    if isinstance(v, bool):
+        return v
+    raise Undecided("result is not a bool")
+
+
+def pat_match(p, v):
+    k = p["k"]
+    if k == "Wild":
+        return True
+    if k == "Or":
+        return any(pat_match(c, v) for c in p["cases"])
+    if k == "Ref":
+        return pat_match(p["pat"], v)
+    if k == "Lit":
+        if p["t"] in ("int", "byte"):
+            return v == int(p["v"])
+        if p["t"] in ("char", "str"):
+            return v == p["v"]
+    if k == "Range":
+        lo = lit_val(p["lo"]) if p["lo"] else None
+        hi = lit_val(p["hi"]) if p["hi"] else None
+        if type(v) not in (int, str) or any(x is not None and type(x) is not type(v) for x in (lo, hi)):
+            raise Undecided("range pattern")
+        return (lo is None or lo <= v) and (hi is None or (v <= hi if p["inclusive"] else v < hi))
+    if k == "TupleStruct" and p["path"].split("::")[-1] == "Some" and len(p["elems"]) == 1:
+        return isinstance(v, tuple) and v[0] == "some" and pat_match(p["elems"][0], v[1])
+    if k == "Path" and p["path"].split("::")[-1] == "None":
+        return v == ("none",)
+    if k == "Slice":
+        if not isinstance(v, (bytes, list)):
+            raise Undecided("slice pattern")
+        els = p["elems"]
+        rest = [i for i, e in enumerate(els) if e["k"] == "Rest" or (e["k"] == "Ident" and e.get("sub", {}) and e["sub"].get("k") == "Rest")]
+        seq = list(v)
+        if not rest:
+            return len(seq) == len(els) and all(pat_match(e, x) for e, x in zip(els, seq))
+        if len(rest) == 1:
+            i = rest[0]
+            tail = els[i + 1:]
+            if len(seq) < len(els) - 1:
+                return False
+            return all(pat_match(e, x) for e, x in zip(els[:i], seq)) and all(pat_match(e, x) for e, x in zip(tail, seq[len(seq) - len(tail):]))
+    raise Undecided("pattern %s" % k)
+
+
+def lit_val(e):
+    if e["k"] == "Lit":
+        if e["t"] in ("int", "byte"):
+            return int(e["v"])
+        if e["t"] in ("char", "str"):
+            return e["v"]
+        if e["t"] == "bool":
+            return e["v"] in (True, "true")
+        if e["t"] == "bytestr":
+            return bytes(e["v"]) if isinstance(e["v"], list) else e["v"].encode()
+    raise Undecided("literal")
+
+
+def flag_eval(ctx, it, variant, code, depth=3):
+    """value of a `&self -> bool` method of Track for one variant, for bodies that compute the answer from the code string
+    (`self.code()`/a helper returning the code, `as_bytes`, `last`, `ends_with`, `chars().last()`, `matches!`, `==`, `||`, `&&`)"""
+    body = it["body"]
+    if isinstance(body, dict) and body.get("k") == "Block":
+        body = body["stmts"]
+    if isinstance(body, list):
+        if len(body) != 1 or body[0]["k"] != "Expr":
+            raise Undecided("body is not a single expression")
+        body = body[0]["e"]
+
+    def ev(e):
+        k = e["k"]
+        if k == "Block" and len(e["stmts"]) == 1 and e["stmts"][0]["k"] == "Expr":
+            return ev(e["stmts"][0]["e"])
+        if k == "Paren" or k == "Ref":
+            return ev(e["e"])
+        if k == "Lit":
+            return lit_val(e)
+        if k == "Matches":
+            return pat_match(e["pat"], ev(e["e"]))
+        if k == "Unary" and e["op"] == "!":
+            return not truth(ev(e["e"]))
+        if k == "Unary" and e["op"] == "*":
+            return ev(e["e"])
+        if k == "Binary":
+            if e["op"] == "||":
+                return truth(ev(e["lhs"])) or truth(ev(e["rhs"]))
+            if e["op"] == "&&":
+                return truth(ev(e["lhs"])) and truth(ev(e["rhs"]))
+            if e["op"] in ("==", "!="):
+                a, b = ev(e["lhs"]), ev(e["rhs"])
+                if type(a) is not type(b):
+                    raise Undecided("comparison of unlike values")
+                return (a == b) == (e["op"] == "==")
+            raise Undecided("operator %s" % e["op"])
+        if k == "Call" and e["func"]["k"] == "Path" and e["func"]["path"].split("::")[-1] == "Some" and len(e["args"]) == 1:
+            return ("some", ev(e["args"][0]))
+        if k == "Path" and e["path"].split("::")[-1] == "None":
+            return ("none",)
+        if k == "MethodCall":
+            mth = e["method"]
+            if e["recv"].get("k") == "Path" and e["recv"]["path"] == "self":
+                ms = ctx.ast.method("Track", mth, crate="insim_core")
+                if len(ms) != 1 or e["args"]:
+                    raise Undecided("self.%s" % mth)
+                e2, it2 = ms[0]
+                # a method that (directly or through a helper) is the code table
+                def tablelike(mt_):
+                    return len([1 for (p, b, g, ln) in tables.rows(mt_["arms"]) if p[0] == "var" and b[0] == "str"]) >= len(code) // 2
+                _, it3, mt = tables.follow_match(ctx.ast, "Track", e2, it2, tablelike, crate="insim_core")
+                if mt is not None:
+                    for (p, b, g, ln) in tables.rows(mt["arms"]):
+                        if p[0] == "var" and p[1] == variant and b[0] == "str":
+                            return b[1]
+                    raise Undecided("no row for %s in Track::%s" % (variant, it3["sig"]["name"]))
+                if depth > 0:
+                    return flag_eval(ctx, it2, variant, code, depth - 1)
+                raise Undecided("self.%s" % mth)
+            r = ev(e["recv"])
+            args = e["args"]
+            if mth in ("to_string", "as_str", "to_owned", "as_ref", "clone", "copied", "cloned", "iter", "into_iter", "to_vec", "borrow") and not args:
+                return r
+            if mth in ("as_bytes", "bytes") and isinstance(r, str) and not args:
+                return r.encode()
+            if mth == "chars" and isinstance(r, str) and not args:
+                return list(r)
+            if mth in ("last", "next_back") and isinstance(r, (bytes, list)) and not args:
+                return ("some", r[-1]) if len(r) else ("none",)
+            if mth in ("first", "next") and isinstance(r, (bytes, list)) and not args:
+                return ("some", r[0]) if len(r) else ("none",)
+            if mth == "rev" and isinstance(r, (bytes, list)) and not args:
+                return r[::-1]
+            if mth == "len" and isinstance(r, (bytes, list, str)) and not args:
+                return len(r)
+            if mth in ("ends_with", "starts_with", "contains") and len(args) == 1 and isinstance(r, (str, bytes)):
+                a = args[0]
+                if a["k"] in ("Array", "Ref") and (a.get("elems") or (a.get("e") or {}).get("elems")):
+                    els = a.get("elems") or a["e"]["elems"]
+                    cands = [lit_val(x) for x in els]
+                    if isinstance(r, bytes):
+                        # ends_with(&[..]) on a byte slice is a suffix, not an alternative
+                        cands = [bytes(cands)]
+                elif a["k"] == "Closure":
+                    raise Undecided("closure pattern")
+                else:
+                    cands = [ev(a)]
+                res = False
+                for c in cands:
+                    if isinstance(r, bytes) and isinstance(c, int):
+                        c = bytes([c])
+                    if type(c) is not type(r):
+                        raise Undecided("pattern type")
+                    res = res or (r.endswith(c) if mth == "ends_with" else r.startswith(c) if mth == "starts_with" else c in r)
+                return res
+            if mth in ("is_some_and", "map_or") and isinstance(r, tuple) and r[0] in ("some", "none"):
+                clo = args[-1]
+                if clo["k"] != "Closure" or len(clo["inputs"]) != 1:
+                    raise Undecided("callable")
+                if r[0] == "none":
+                    return False if mth == "is_some_and" else ev(args[0])
+                return bind(clo, r[1])
+            if mth == "is_some" and isinstance(r, tuple):
+                return r[0] == "some"
+            if mth == "is_none" and isinstance(r, tuple):
+                return r[0] == "none"
+            if mth in ("unwrap", "unwrap_or_default") and isinstance(r, tuple) and r[0] == "some":
+                return r[1]
+            raise Undecided("method %s" % mth)
+        if k == "Path" and e["path"] in env:
+            return env[e["path"]]
+        raise Undecided("expression %s" % k)
+
+    env = {}
+
+    def bind(clo, val):
+        prm = clo["inputs"][0]
+        while prm.get("k") in ("Ref", "Typed"):
+            prm = prm["pat"]
+        if prm.get("k") != "Ident":
+            raise Undecided("closure parameter")
+        env[prm["name"]] = val
+        try:
+            return ev(clo["body"])
+        finally:
+            env.pop(prm["name"], None)
+    return ev(body)
+
+
 def run(ctx, rep):
     rep.explanation = EXPLANATION
     rep.assumptions = ["binrw reads/writes [u8; 6] as six consecutive bytes"]
@@ -35,10 +237,16 @@ def run(ctx, rep):
         if m is None:
             return None, None
         e, it = m
-        mt = tables.first_match(it["body"])
+
+        def tablelike(mt_):
+            return len([1 for (p, b, g, ln) in tables.rows(mt_["arms"]) if p[0] == "var"]) >= len(variants) // 2
+        e2, it2, mt = tables.follow_match(ctx.ast, "Track", e, it, tablelike, crate="insim_core")
         if mt is None:
             rep.fail("R14.0", "table:%s" % name, "no match table in Track::%s" % name, ctx.loc(e, it["ln"]))
             return None, None
+        if it2 is not it:
+            rep.notes.append("R14.1: table of Track::%s found in helper Track::%s" % (name, it2["sig"]["name"]))
+            e, it = e2, it2
         t = {}
         dup = []
         for (p, b, g, ln) in tables.rows(mt["arms"]):
@@ -110,17 +318,28 @@ def run(ctx, rep):
         rep.fail("R14.5", "Display", "impl Display for Track not found")
     is_rev = method("is_reverse")
     is_open = method("is_open")
-    rev_set = tables.matches_set(is_rev[1]["body"]) if is_rev else None
-    open_set = tables.matches_set(is_open[1]["body"]) if is_open else None
+    rev_set = variant_list(is_rev[1]["body"], variants) if is_rev else None
+    open_set = variant_list(is_open[1]["body"], variants) if is_open else None
+    computed = {}
     for nm, st, m in (("is_reverse", rev_set, is_rev), ("is_open", open_set, is_open)):
+        if st is None and m is not None:
+            # not a list of variants: a predicate computed from the code - evaluated for every variant
+            try:
+                computed[nm] = {v for v in variants if truth(flag_eval(ctx, m[1], v, code))}
+                rep.check("R14.1", "%s:rows" % nm, True, "", ctx.loc(m[0], m[1]["ln"]), nontrivial=False,
+                          sample={"table": nm, "form": "computed from the code table", "true_for": len(computed[nm])})
+                rep.notes.append("R14.4: Track::%s is computed from the code table; evaluated for all %d variants" % (nm, len(variants)))
+            except Undecided as ex:
+                rep.fail("R14.0", "table:%s" % nm, "Track::%s is neither a matches! list of variants nor a predicate over the code that can be evaluated (%s)" % (nm, ex),
+                         ctx.loc(m[0], m[1]["ln"]))
+            continue
         if st is None:
-            rep.fail("R14.0", "table:%s" % nm, "no matches! list in Track::%s" % nm)
             continue
         names = [x[1] for x in st[0] if x[0] == "var"]
         rep.check("R14.1", "%s:rows" % nm, len(names) == len(set(names)) and set(names) <= set(variants) and len(names) == len(st[0]),
                   "Track::%s lists a variant twice or an unknown pattern" % nm, ctx.loc(m[0], st[1]), nontrivial=False)
-    revs = {x[1] for x in rev_set[0]} if rev_set else set()
-    opens = {x[1] for x in open_set[0]} if open_set else set()
+    revs = {x[1] for x in rev_set[0]} if rev_set else computed.get("is_reverse", set())
+    opens = {x[1] for x in open_set[0]} if open_set else computed.get("is_open", set())
     area_lic = {}
     codes_seen = {}
     for v in variants:
